@@ -74,7 +74,7 @@ def pattern_cases(R, tier):
     for i in range(n):
         d = rng.choice((2, 3, 3, 4, 4, 5, 6) if tier == 'quick' else (3, 4, 4, 5, 5, 6, 7))
         if i % 25 == 0:
-            d = rng.choice((7, 7, 8))          # the lazily filled sign table
+            d = rng.choice((7, 8, 9, 10))      # the lazily filled sign table, generators beyond the 8th bit
         if rng.random() < 0.2 and d <= 5:
             spec = {'sig': [rng.choice((1, -1, 0)) for _ in range(d)], 'basis': algs.random_basis(rng, d)}
         elif rng.random() < 0.1:
